@@ -289,6 +289,111 @@ def bisectZD (nc : List (List Nat)) (E2 : Nat → Nat → Rat → Rat) (sz : Nat
         | none => (.valueError, st.trace)                          -- min([]) raises ValueError
         | some (l, k, _) => (.selected l k (sz l k), st.trace)
 
+/-! ### RowWiseModifiedBisectionSearch.search
+
+  The field generated for a target spacing is a function of the spacing (the generator is
+  deterministic), so the oracle is indexed by spacing: `Es s` excess at max height of the field
+  generated at spacing `s`, `nb s` its borehole count, `szs s` its sized height.  In the
+  borehole-removal branch `Esub n` is the excess of the sub-field with `n` boreholes and `E1` that of
+  a single borehole.
+-/
+
+structure RWCfg where
+  start : Rat          -- min_spacing  (densest field: "upper field")
+  stop : Rat           -- max_spacing  ("lower field")
+  step : Rat           -- spacing_step
+  cont : Bool
+  maxIter : Nat
+  deriving Repr
+
+/-- What the RowWise search returns: a generated field (by spacing), or a sub-field of the
+    largest-spacing field with `n` boreholes. -/
+inductive RWSel where
+  | atSpacing (s : Rat)
+  | sub (n : Nat)            -- `starting_field[nbh_start - n:]`, n boreholes of the lower field
+  | single                   -- one borehole of the lower field ("1X1")
+  deriving Repr, DecidableEq, Inhabited
+
+inductive RWOutcome where
+  | selected (f : RWSel) (escape : Bool)
+  | valueError
+  deriving Repr, DecidableEq, Inhabited
+
+inductive RWEval where
+  | sp (s : Rat) | one | subf (n : Nat)
+  deriving Repr, DecidableEq, Inhabited
+
+structure RWBis where
+  hi : Rat
+  lo : Rat
+  lowE : Rat
+  highE : Rat
+  m : Rat
+  trace : List RWEval
+  deriving Repr
+
+/-- The spacing bisection `while i < max_iter`. -/
+def rwBisect (Es : Rat → Rat) : Nat → RWBis → RWBis
+  | 0, b => b
+  | fuel + 1, b =>
+    let e1 := Es b.m
+    let b1 : RWBis := if e1 ≤ 0 then { b with hi := b.m, highE := e1 } else { b with lo := b.m, lowE := e1 }
+    let b2 : RWBis := { b1 with m := (b1.lo + b1.hi) / 2, trace := b.trace ++ [.sp b.m] }
+    if ratAbs (b2.lowE - b2.highE) < 1 / 10000000000 then b2 else rwBisect Es fuel b2
+
+/-- The exhaustive sweep over `target_spacings` keeping the feasible field of least total
+    drilling; `best = none` only before the first target. -/
+def rwSweep (Es : Rat → Rat) (nb : Rat → Nat) (szs : Rat → Rat) :
+    List Rat → Option (Rat × Rat) → Option (Rat × Rat)
+  | [], best => best
+  | ts :: rest, best =>
+    let e := Es ts
+    let total : Rat := szs ts * (nb ts : Nat)
+    let best' := match best with
+      | none => some (ts, total)
+      | some (bs, bt) => if e ≤ 0 ∧ total < bt then some (ts, total) else some (bs, bt)
+    rwSweep Es nb szs rest best'
+
+structure RWRem where
+  nmax : Nat
+  nmin : Nat
+  sel : RWSel
+  trace : List RWEval
+  deriving Repr
+
+/-- The borehole-removal bisection on the number of boreholes. -/
+def rwRemove (Esub : Nat → Rat) : Nat → RWRem → RWRem
+  | 0, r => r
+  | fuel + 1, r =>
+    let n := (r.nmax + r.nmin) / 2
+    let e := Esub n
+    let r1 : RWRem := if e ≤ 0 then { r with nmax := n, sel := .sub n } else { r with nmin := n }
+    let r2 : RWRem := { r1 with trace := r.trace ++ [.subf n] }
+    if r2.nmax - r2.nmin ≤ 1 then r2 else rwRemove Esub fuel r2
+
+def rowwiseSearch (Es : Rat → Rat) (nb : Rat → Nat) (szs : Rat → Rat) (E1 : Rat) (Esub : Nat → Rat)
+    (c : RWCfg) : RWOutcome × List RWEval :=
+  let tU := Es c.start
+  let tL := Es c.stop
+  let tr0 : List RWEval := [.sp c.start, .sp c.stop]
+  if tU > 0 ∧ tL > 0 then
+    (if c.cont then .selected (.atSpacing c.start) true else .valueError, tr0)
+  else if tU < 0 ∧ 0 < tL then
+    let b := rwBisect Es c.maxIter
+      { hi := c.start, lo := c.stop, lowE := tU, highE := tL, m := (c.stop + c.start) / 2, trace := tr0 }
+    let change := c.step / 10          -- (spacing_l - current_spacing) / 10 with spacing_l = step + high
+    let targets := (List.range 11).map (fun (k : Nat) => b.hi + (k : Nat) * change)
+    match rwSweep Es nb szs targets none with
+    | none => (.valueError, b.trace)         -- unreachable: the target list is never empty
+    | some (s, _) => (.selected (.atSpacing s) false, b.trace ++ targets.map .sp)
+  else if tL < 0 ∧ tU < 0 then
+    if E1 ≤ 0 then (.selected .single false, tr0 ++ [.one])
+    else
+      let n := nb c.stop
+      let r := rwRemove Esub c.maxIter { nmax := n, nmin := 1, sel := .atSpacing c.stop, trace := tr0 ++ [.one] }
+      (.selected r.sel false, r.trace)
+  else (.valueError, tr0)
+
 /-! ### utilities.solve_root and GHE.size -/
 
 /-- Result of `solve_root`: which branch, and the returned abscissa. -/
@@ -344,6 +449,42 @@ def cmd : List String → Option String
       let (o, tr) := bisect1D counts E cfg
       let trs := " ".intercalate (tr.map (fun (i, h) => s!"{i}:{if h = maxH then "H" else "L"}"))
       return s!"{showOutcome cfg o} | {trs}"
+  | "rw" :: start :: stop :: step :: cont :: mi :: e1 :: nsp :: rest => some <| Id.run do
+      let some start := parseRat? start | return "bad-arg"
+      let some stop := parseRat? stop | return "bad-arg"
+      let some step := parseRat? step | return "bad-arg"
+      let some mi := mi.toNat? | return "bad-arg"
+      let some e1 := parseRat? e1 | return "bad-arg"
+      let some nsp := nsp.toNat? | return "bad-arg"
+      let spToks := rest.take (4 * nsp)
+      let rest2 := rest.drop (4 * nsp)
+      let some nsub := (rest2.headD "").toNat? | return "bad-arg"
+      let some esub := parseRats (rest2.drop 1) | return "bad-arg"
+      if esub.length ≠ nsub then return "bad-arg"
+      let rec rows : List String → Option (List (Rat × Nat × Rat × Rat))
+        | a :: b :: c :: d :: t => do
+            let a ← parseRat? a; let b ← b.toNat?; let c ← parseRat? c; let d ← parseRat? d
+            let r ← rows t
+            pure ((a, b, c, d) :: r)
+        | [] => some []
+        | _ => none
+      let some tbl := rows spToks | return "bad-arg"
+      let look (sp : Rat) : Option (Rat × Nat × Rat × Rat) := tbl.find? (fun r => r.1 = sp)
+      let Es : Rat → Rat := fun sp => match look sp with | some r => r.2.2.1 | none => 424242
+      let nb : Rat → Nat := fun sp => match look sp with | some r => r.2.1 | none => 0
+      let szs : Rat → Rat := fun sp => match look sp with | some r => r.2.2.2 | none => 0
+      let c : RWCfg := { start := start, stop := stop, step := step, cont := cont = "1", maxIter := mi }
+      let (o, tr) := rowwiseSearch Es nb szs e1 (fun n => esub.getD (n - 1) 424242) c
+      let showEv : RWEval → String
+        | .sp sp => (if (look sp).isNone then "?" else "") ++ "s" ++ showRat sp
+        | .one => "one"
+        | .subf n => s!"sub{n}"
+      let os := match o with
+        | .selected (.atSpacing sp) esc => s!"selected s{showRat sp}{if esc then " escape" else ""}"
+        | .selected (.sub n) _ => s!"selected sub{n}"
+        | .selected .single _ => "selected single"
+        | .valueError => "ValueError"
+      return s!"{os} | {" ".intercalate (tr.map showEv)}"
   | ["solveroot", x, flo, fhi, lo, hi, brent] => some <| Id.run do
       let some x := parseRat? x | return "bad-arg"
       let some flo := parseRat? flo | return "bad-arg"
